@@ -262,9 +262,11 @@ class Lexer:
                         if self.text[self.position] == "*" and self.peek_char() == "/":
                             break
                         self.next_char()
-                    # Skip the "*/" at the end of the comment.
-                    self.next_char()
-                    self.next_char()
+                    # Skip the "*/" at the end of the comment (unless the comment is
+                    # never closed and runs to the end of the text).
+                    if self.position < len(self.text):
+                        self.next_char()
+                        self.next_char()
                 else:
                     break
             else:
